@@ -908,7 +908,7 @@ func (c *controlPlaneCore) BatchRemoveDomainRouting(cache *DnsCache) error {
 	if bpf == nil {
 		return nil
 	}
-	return c.domainRouting.syncOwner(bpf.DomainRoutingMap, cache.RouteOwnerKey, domainRoutingOwnerSnapshot{})
+	return c.domainRouting.removeOwnerOf(bpf.DomainRoutingMap, cache.RouteOwnerKey, cache)
 }
 
 func (c *controlPlaneCore) RetainUdpConnStateTuples(keys []bpfTuplesKey) {
